@@ -17,17 +17,17 @@ def battery():
     df = pandas.DataFrame({
         "a": [0.5, 1.25, 2.0, 3.5, 4.75, 6.0, 7.5, 8.0, 9.25], "b": [1.0, 7.0, 2.5, 5.5, 0.25, 3.0, 6.5, 2.0, 4.0],
         "z": [1.0, numpy.nan, 3.0, 4.0, numpy.nan, 6.0, 7.0, 8.0, 9.0], "w": [numpy.nan, 2.0, 3.0, 4.0, 5.0, 6.0, numpy.nan, 8.0, 9.0],
-        "x 1": [2.5, 0.5, 7.25, 3.0, 1.0, 8.5, 4.0, 6.25, 5.0],
+        "x 1": [2.5, 0.5, 7.25, 3.0, 1.0, 8.5, 4.0, 6.25, 5.0], "x_1": [1.0, 4.5, 2.25, 8.0, 6.0, 0.5, 3.0, 7.25, 5.5],
         "A": pandas.Categorical(list("xyzxyzxyz")), "B": pandas.Categorical(list("uuuvvvuvu")), "G": pandas.Categorical(["k1", "k2", "k3", "k2", "k1", "k3", "k3", "k1", "k2"]),
     })
     cases = [
         "a + b + A + B + G", "A*B*G", "a:A + b:B + A:B:G + G", "y ~ . - a" if False else "b ~ a + A | B + z | w:G", "scale(a) + center(b):A + poly(a, 2)",
         "0 + A:B + B:G + a:G", "z + w + A", "bs(a, df=4):B + cr(b, df=3)", "C(A, contr.sum) * C(G, contr.helmert) + {a + b}", "a + hashed(G, levels=5) + z",
-        "center(`x 1`) + scale(`x 1`):A + {`x 1` * b}", "scale(a) + center(a) + scale(b):G + poly(b, 2)",
+        "center(`x 1`) + scale(`x 1`):A + {`x 1` * b}", "scale(`x 1`) + center(x_1) + {`x 1` * x_1}", "scale(a) + center(a) + scale(b):G + poly(b, 2)",
     ]
     # follow-up data for spec reuse: what a spec replays must not depend on the hash seed either
     df2 = df.iloc[::-1].reset_index(drop=True).copy()
-    for c in ("a", "b", "x 1"):
+    for c in ("a", "b", "x 1", "x_1"):
         df2[c] = df2[c] * 0.5 + 1.0  # stays inside the training range (spline bounds)
     out = []
     for f in cases:
